@@ -76,7 +76,12 @@ def gen_plan(rng, tier):
                                          ks2={'class': 'org.apache.cassandra.locator.SimpleStrategy', 'replication_factor': '1'})
         p['shutdown'] = {'what': rng.choice(['cluster', 'session']), 'at': round(t_sw + rng.choice([0.005, 0.02, 0.05, 0.1, 0.3]), 3),
                          'after_requests': rng.choice([0, 1])}
+        if rng.random() < 0.6:
+            p['shutdown'].update(on_catchup_use=True, after_use=rng.choice([0.001, 0.005, 0.02]))
+            p['use_delay'] = rng.choice([0.05, 0.2])
         p['exec']['reconnect_delay'] = 5.0
+        # (the UP event is acted on at once; with the default window of 2 s the host would come back after the shutdown)
+        p['cluster_kw'] = dict(p.get('cluster_kw') or {}, status_event_refresh_window=0, topology_event_refresh_window=0)
     return p
 
 
@@ -95,6 +100,25 @@ class ShutdownRun(PoolRun):
         if plan.get('switch'):
             w.spawn(self.switcher, 'switcher', plan['switch'])
         PoolRun.main(self)
+
+    def shutter_on_catchup(self, sd):
+        # shutdown bound to the moment the returning host's new pool is catching up with the keyspace switch: its node has just
+        # received USE <new keyspace> on a connection opened after the restart, the answer is still on its way
+        w, sim = self.w, self.w.sim
+        while not self.st.get('started') and not self.connect_error:
+            w.sleep(0.01)
+        node = w.fc.nodes[self.plan['slow_node']['node']]
+        ks = self.plan['switch']['ks']
+        end = sim.vnow() + 8.0
+        while sim.vnow() < end:
+            late = [nc for nc in node.conns if not nc.events and not nc.closed and any(k_ == ks for (_s, k_) in nc.use_log)
+                    and nc.accepted_t > self.st.get('t_connected', 0) + 0.3]
+            if late:
+                sim.probe('shutdown_while_new_pool_catches_up_with_switch')
+                break
+            w.sleep(0.002)
+        w.sleep(sd.get('after_use', 0.002))
+        self.do_shutdown(sd)
 
     def switcher(self, sw):
         w = self.w
@@ -131,6 +155,8 @@ class ShutdownRun(PoolRun):
     def shutter(self, sd):
         if sd.get('during_connect'):
             return
+        if sd.get('on_catchup_use'):
+            return self.shutter_on_catchup(sd)
         PoolRun.shutter(self, sd)
 
     def do_shutdown(self, sd):
